@@ -91,7 +91,7 @@ def gen_case(rng, uid):
         companion = {"durs": {st["name"]: dur() for st in states}, "when": rng.choice(["before", "after", "after"]),
                      "runs": rng.random() < 0.5,
                      "vars": [rng.choice([True, 7, 0.125, "other"]) for _ in sdvars]}
-    return {"uid": uid, "long_chain": long_chain, "grid": grid, "period": period, "states": states, "script": script, "sdvars": sdvars,
+    return {"uid": uid, "bad_register": bool(sdvars) and rng.random() < 0.3, "base_first": nlev >= 2 and rng.random() < 0.4, "long_chain": long_chain, "grid": grid, "period": period, "states": states, "script": script, "sdvars": sdvars,
             "levels": nlev, "companion": companion, "hseed": rng.randrange(1 << 30), "ops": None}
 
 
@@ -148,6 +148,7 @@ def build(case):
     nlev = case.get("levels", 1)
     bodies = [{} for _ in range(nlev)]
     body = bodies[-1]
+    bodies[0]["MODE_NAME"] = case["uid"] + "_base"       # (a base level may be a mode of its own)
     body["MODE_NAME"] = case["uid"]
     for st in case["states"]:
         body = bodies[min(st.get("level", nlev - 1), nlev - 1)]
@@ -165,8 +166,16 @@ def build(case):
         body[st["name"]] = obj
     sdvars = case["sdvars"]
 
+    bad_first = case.get("bad_register")
+
     def initialize(self):
         for v in sdvars:
+            if bad_first:
+                # a default that is not bool / number / str is refused with ValueError; the mode falls back to a literal
+                try:
+                    self.register_sd_var(v["name"], None, add_prefix=v["prefix"])
+                except ValueError:
+                    pass
             self.register_sd_var(v["name"], v["default"], add_prefix=v["prefix"])
     bodies[0]["initialize"] = initialize
     cls = sa.StatefulAutonomous
@@ -288,6 +297,16 @@ class Driver:
         self.other = None
         if comp and comp["when"] == "before":
             self.other = self._mk_other()
+        if case.get("bad_register"):
+            self.events["refused-variable-registration-then-a-valid-one"] = 1
+        if case.get("base_first"):
+            # the selector instantiates every mode class of the package: the base modes exist before the derived one
+            for b in reversed(cls.__mro__[1:case.get("levels", 1)]):
+                try:
+                    b()
+                    self.events["base-mode-instantiated-before-the-derived-one"] = 1
+                except Exception:  # noqa  (a base level that is no complete mode on its own is not instantiated by anybody)
+                    pass
         self.mode = cls()
         if comp and comp["when"] == "after":
             self.other = self._mk_other()
